@@ -13,7 +13,14 @@ import (
 	"golang.org/x/tools/go/ssa/ssautil"
 )
 
-const repoDir = "/repo"
+var repoDir = repoDirFromEnv()
+
+func repoDirFromEnv() string {
+	if d := os.Getenv("VERIF_REPO"); d != "" {
+		return d // scratch copies used by the seeded-change / self-test tools only
+	}
+	return "/repo"
+}
 const modulePath = "github.com/theparanoids/ysshra"
 
 func loadProgram(patterns []string) (*Exec, error) {
@@ -47,7 +54,7 @@ func loadProgram(patterns []string) (*Exec, error) {
 	x := &Exec{
 		prog: prog, pkgs: map[string]*packages.Package{}, ssaPkgs: map[string]*ssa.Package{},
 		specs: map[string]*SpecFile{}, contracts: map[string]*Contract{}, ghosts: map[string]*GhostFunc{},
-		notes: map[string]bool{}, used: map[string]bool{}, maxPaths: 20000, variants: map[string][]*Contract{}, funcVals: map[string]*ssa.Function{}, ghostFields: map[string]*GhostField{}, definingGhost: map[string]bool{}, fnInfos: map[string]*fnInfo{}, immutableFields: map[string]bool{}, loopFrameHeaps: map[*ssa.BasicBlock][]string{}, loopsOf: map[*ssa.Function]*loopInfo{},
+		notes: map[string]bool{}, used: map[string]bool{}, maxPaths: 20000, variants: map[string][]*Contract{}, funcVals: map[string]*ssa.Function{}, ghostFields: map[string]*GhostField{}, definingGhost: map[string]bool{}, fnInfos: map[string]*fnInfo{}, immutableFields: map[string]bool{}, protected: map[string]Protected{}, loopFrameHeaps: map[*ssa.BasicBlock][]string{}, loopsOf: map[*ssa.Function]*loopInfo{},
 	}
 	packages.Visit(pkgs, nil, func(p *packages.Package) {
 		x.pkgs[p.PkgPath] = p
@@ -112,6 +119,9 @@ func (x *Exec) registerSpec(sf *SpecFile) {
 	}
 	for _, g := range sf.GhostFields {
 		x.ghostFields[g.Name] = g
+	}
+	for _, pr := range sf.Protected {
+		x.protected[sf.Pkg+"."+pr.Field] = pr
 	}
 	for _, im := range sf.Immutable {
 		x.immutableFields[sf.Pkg+"."+im] = true
